@@ -3,6 +3,7 @@ package brokersim
 import (
 	"errors"
 	"fmt"
+	"sort"
 	"testing/synctest"
 
 	"github.com/magisterquis/curlrevshell/verifharness/simkit"
@@ -94,6 +95,9 @@ func (s *sim) coinRisk(a Action) bool {
 	case "shutdown":
 		if !s.cfg.DeriveCtx {
 			return false
+		}
+		if !s.cfg.AutoDrain && in != nil && s.liveOut() != nil {
+			return true // two closure notices would race for the operator's next receive
 		}
 		for _, at := range s.atts {
 			if at.in != nil && !at.returned && (at.in.site == "" || at.in.site == "admit") {
@@ -432,6 +436,15 @@ func (s *sim) settle() {
 			break
 		}
 	}
+	// callers that parked during the same step arrived in scheduler order:
+	// give the list a canonical order before anything is chosen from it
+	sort.SliceStable(s.parks, func(i, j int) bool {
+		a, b := s.parks[i], s.parks[j]
+		if a.h.att.id != b.h.att.id {
+			return a.h.att.id < b.h.att.id
+		}
+		return a.h.dir < b.h.dir
+	})
 	npark := 0
 	for _, p := range s.parks {
 		s.obs("park %s@%s", p.h.name(), p.site)
